@@ -13,7 +13,13 @@
 //! `num_named_vars` counts them, bare map and manager agree, and the truth table of every live
 //! BDD handle is unchanged (for every value of the variables added since its creation while there
 //! are at most 10 variables; all values of the mentioned variables times three patterns for the
-//! others beyond that).
+//! others beyond that). `frommapclone` hands over *clones* of a map and drops the original: the
+//! clones must own their names (signature `clone-aliases-storage`; detected by pointer comparison
+//! so that the run itself stays free of undefined behaviour).
+//!
+//! Out-of-range `set_var_name` is executed under `catch_unwind` (`PANIC`); the documentation
+//! demands a panic, the code returns `DuplicateVarName` instead when the name is taken — tolerated
+//! (state unchanged) and counted as `op.setname.no-such-var.dup-instead-of-panic`.
 use oxidd::bdd::{BDDFunction, BDDManagerRef};
 use oxidd::{BooleanFunction, Manager, ManagerRef};
 use oxidd_core::error::DuplicateVarName;
